@@ -85,15 +85,18 @@ example : placePronouns false ([Tok.pro { lemma := je, c := none, tn := false, p
 
 /-- **partial**: a clause WITHOUT sentence-type flags, in any tense but the imperative, with any subject (pronoun, noun
     phrase, none) and ANY NUMBER of direct / prepositional complements in any order, none of them pronominalized,
-    realizes to the same tokens in both notations — provided the conjugated verb gives `doPronounPlacement` nothing
-    to do (no reflexive pronoun: every verb that is not essentially reflexive) and no realization is empty.
-    Every flag and every pronominalization outside this fragment has a refuting witness above or in
-    `known_findings.d/C08fr.json` (the roots found by the small-scope exploration). -/
-theorem notations_agree_fr_partial (sp : Spec) (hp : Plain sp) (cv : List Tok × Bool)
-    (hcv : conjugate (plainVerb sp) false none = .ok cv) (hin : ∀ t ∈ cv.1, Inert false t)
+    whose verb is not essentially reflexive, realizes to the same tokens in both notations (when the verb conjugates
+    and no realization is empty). That the conjugated verb gives `doPronounPlacement` nothing to do is PROVED
+    (`conjugate_inert`). Every flag and every pronominalization outside this fragment has a refuting witness above
+    or in `known_findings.d/C08fr.json` (the roots found by the small-scope exploration). -/
+theorem notations_agree_fr_partial (sp : Spec) (hp : Plain sp) (hnr : sp.verb.pat ≠ some [reflStr])
+    (cv : List Tok × Bool) (hcv : conjugate (plainVerb sp) false none = .ok cv)
     (hne : ∀ t ∈ subjToks sp ++ cv.1 ++ compToks sp, t.form ≠ []) :
     realize .phrase sp = realize .dep sp := by
   have h2 := conjugate_none_snd _ _ _ hcv
+  have hiv : InertV (plainVerb sp) := by
+    refine ⟨?_, ?_, ?_, ?_, ?_⟩ <;> simp [plainVerb, Spec.verbT, mkV, hnr]
+  have hin := conjugate_inert _ _ hiv hcv
   simp only [realize, realizePhrase, realizeDep, plain_phrase sp hp cv hcv hin hne, plain_dep sp hp cv hcv h2 hin hne]
 
 /-- non-vacuity: « le chat mange le chat dans le chat » satisfies the hypotheses -/
@@ -104,12 +107,10 @@ example : Plain plainWitness :=
   ⟨rfl, by decide, rfl, rfl,
    by intro c hc; simp [plainWitness] at hc; rcases hc with rfl | rfl <;> rfl,
    by simp [plainWitness, chat]⟩
-example : ∃ cv, conjugate (plainVerb plainWitness) false none = .ok cv ∧ (∀ t ∈ cv.1, Inert false t) ∧
+example : plainWitness.verb.pat ≠ some [reflStr] := by decide
+example : ∃ cv, conjugate (plainVerb plainWitness) false none = .ok cv ∧
     (∀ t ∈ subjToks plainWitness ++ cv.1 ++ compToks plainWitness, t.form ≠ []) := by
-  refine ⟨([.v _ _, .v _ _], false), rfl, ?_, ?_⟩
-  · intro t ht
-    simp only [List.mem_cons, List.not_mem_nil, or_false] at ht
-    rcases ht with rfl | rfl <;> (refine ⟨rfl, rfl, rfl, ?_⟩; decide)
-  · decide
+  refine ⟨([.v _ _, .v _ _], false), rfl, ?_⟩
+  decide
 
 end Pyrealb.C08Fr
